@@ -177,3 +177,27 @@ func C07_Glued() {
 	f := c07File(&symio.File{Data: src, Script: c07Script(k, mode), FileName: "file"})
 	c07Compare(w, f)
 }
+
+// C07_ManyZeroReads: CONCRETE INSTANCES - a reader that returns (0, nil)
+// before every short read (or twice, or after every read), 150 to 400 empty
+// reads in all over the input: the outcome is that of Parse on the whole text.
+func C07_ManyZeroReads() {
+	src := "var a = 1\n"
+	for i := 0; i < 12; i++ {
+		src += "print a + " + itoa(i) + " # c\n"
+	}
+	src += "def t {\n f = a\n}\n"
+	step := []int{1, 2}[verif.Choice("step", 2)]
+	zeros := 1 + verif.Choice("zeros", 2)
+	var script []symio.Step
+	for i := 0; i*step < len(src); i++ {
+		for z := 0; z < zeros; z++ {
+			script = append(script, symio.Step{N: 0})
+		}
+		script = append(script, symio.Step{N: step})
+	}
+	w := c07Whole([]byte(src))
+	f := c07File(&symio.File{Data: []byte(src), Script: script, FileName: "file"})
+	c07Compare(w, f)
+	verif.Reach("compared")
+}
